@@ -201,6 +201,23 @@ def check(repo, rep):
             v = items.get(long_)
             shorts = [k_ for k_, v_ in items.items() if k_ != long_ and ROLE_OF.get(k_) == role and is_attr_of(('p', 'input'), roles=[role])(v_)]
             if v is None and not shorts:
+                # dict.setdefault(long, <the region's value>) on an unfiltered copy of the caller's keywords: the binding only
+                # takes effect when the caller did not pass that keyword, so a caller-supplied value overrides the region's own
+                root = cur
+                def _unfiltered(t):
+                    return t == ('p', 'kwargs') or (t[0] == 'call' and t[1] == ('attr', ('p', 'kwargs'), 'copy') and not t[2]) \
+                        or (t[0] == 'call' and t[1] == ('b', 'dict') and t[2] == (('p', 'kwargs'),) and not t[3])
+                def _chain_root(t):
+                    while t is not None and t[0] == 'upd':
+                        t = t[1]
+                    return t
+                sds = [e for e in l.effects if e[0] == 'call' and e[1][0] == 'call' and e[1][1][0] == 'attr' and e[1][1][2] == 'setdefault'
+                       and len(e[1][2]) == 2 and e[1][2][0] == ('c', long_) and _chain_root(e[1][1][1]) == root]
+                others = [e for e in l.effects if e not in sds and e[0] == 'call' and repr(('c', long_)) in repr(e[1][1:3]) and e is not rd[-1]]
+                if sds and not others and root is not None and _unfiltered(root) and all(is_attr_of(('p', 'input'), roles=[role])(e[1][2][1]) for e in sds):
+                    rep.ob('an AudioRegion input is read with ITS OWN %s: it is bound under the long keyword (which wins over any alias the caller passed)' % role, False, cx.where('core', sds[-1][3]), 'split[AudioRegion input]:%s' % long_,
+                           '%s is bound with setdefault() on a copy of the caller\'s keywords: it only takes effect when the caller passed no %s=, so a caller-supplied value overrides the region\'s own' % (long_, long_), sample=dict(path='AudioRegion input', key=long_, value='setdefault'))
+                    continue
                 rep.unknown('split(): how the parameters of an AudioRegion input reach the reader was not recognised (%s is not set on the keyword dictionary)' % long_)
                 continue
             ok = v is not None and is_attr_of(('p', 'input'), roles=[role])(v)
